@@ -1,4 +1,4 @@
-"""Constant-operand twins of builder cases: the same case is built with some of its `pyrtl.Input`
+"""Constant-operand and alias twins of builder cases: the same case is built with some of its `pyrtl.Input`
 operands replaced by `pyrtl.Const` objects of the same width (helpers accept any wire-like operand;
 a fast path for constants must compute the same bits).  The values are derived from (name, seed)."""
 import contextlib
@@ -23,6 +23,24 @@ def const_inputs(cm):
         return
     real = pyrtl.Input
     count = [0]
+    firsts = {}
+    if cm.get('which') == 'alias':
+        # alias twin: every Input of a width that was seen before IS the first Input of that width (one
+        # wire in several operand positions); `consts` then maps the name to ('alias', first name)
+        def fake_alias(bitwidth=None, name='', block=None):
+            if bitwidth is not None and name and bitwidth in firsts:
+                consts[name] = ('alias', firsts[bitwidth].name)
+                return firsts[bitwidth]
+            w = real(bitwidth, name) if block is None else real(bitwidth, name, block=block)
+            if bitwidth is not None and name:
+                firsts[bitwidth] = w
+            return w
+        pyrtl.Input = fake_alias
+        try:
+            yield consts
+        finally:
+            pyrtl.Input = real
+        return
 
     def fake(bitwidth=None, name='', block=None):
         i = count[0]
